@@ -773,16 +773,34 @@ Definition check_161 (n : N) (obs : list Z) : verdict :=
                zb (N.ltb n 64); zb in_pn; zb in_pn] in
   verdict_of obs model spec.
 
-(** tag 162: the controller-number constants (generated table) *)
+(** tag 162: the controller-number constants.  Input: index into the list of constant names;
+    observation: the constant's value and the value of the constant it is the [_LSB] partner of
+    (or -1), both as computed by the implementation. *)
 Definition check_162 (idx : nat) (obs : list Z) : verdict :=
-  match nth_error ctrl_consts idx with
-  | Some (name, v) =>
-      let spec := match lsb_expected ctrl_consts name with
-                  | Some e => [zN e]
-                  | None => match obs with [x] => if Z.leb 0 x && Z.ltb x 128 then [x] else [ZNONE]
-                                      | _ => [ZNONE] end
-                  end in
-      verdict_of obs [zN v] spec
+  match nth_error ctrl_const_names idx with
+  | Some name =>
+      let has_base := ends_with lsb_suffix name &&
+                      existsb (String.eqb (strip_suffix lsb_suffix name)) ctrl_const_names in
+      let model :=
+        match lookup name ctrl_consts with
+        | Some v =>
+            [zN v;
+             if has_base then
+               match lookup (strip_suffix lsb_suffix name) ctrl_consts with
+               | Some b => zN b
+               | None => nth 1 obs ZNONE        (* base not a literal in the source *)
+               end
+             else ZNONE]
+        | None => obs                           (* not a literal in the source: no model value *)
+        end in
+      let holds :=
+        match obs with
+        | [v; b] =>
+            Z.leb 0 v && Z.leb v 127 &&
+            (if has_base then Z.leb 0 b && Z.eqb v (b + 32) else Z.eqb b ZNONE)
+        | _ => false
+        end in
+      mkV (listZ_eqb obs model) holds model
   | None => bad_record
   end.
 
